@@ -33,8 +33,10 @@ func TestC19(t *testing.T) {
 		"management listener, http_message_signatures key store, jwt/oauth2_introspection/generic authenticators, remote authorizer, generic contextualizer talking to a scripted server) " +
 		"running in a child process per batch. Inputs per file kind: every supported key type with/without certificate in both block orders, every truncation offset (thorough; structural " +
 		"boundaries + seeded picks in quick) applied as successive appends, bit flips, empty/garbage/certificate-only/key-only/unsupported/encrypted/mismatched/expired/cyclic/large stores, " +
-		"remove+recreate; rule files: every node of a valid rule set replaced by null/number/bool/list/map/strings/deleted, unknown keys, ~90 crafted documents (anchors, tags, nesting, CEL, " +
-		"templates, matchers), truncations and bit flips; remote responses: type confusion of every node, truncations, malformed JSON, HTTP-level faults, key confusion, oversized; requests: " +
+		"remove+recreate, an error on the secrets watcher's fsnotify Errors channel (event overflow / failed read) followed by a valid change; rule files: every node of a valid rule set replaced by null/number/bool/list/map/strings/deleted, unknown keys, ~90 crafted documents (anchors, tags, nesting, CEL, " +
+		"templates, matchers; content-less documents such as `---`, `---` plus comment header, `~`, `{}`; blanks / comments only), path expressions with escape characters at the edges (as documents and " +
+		"as values of every `path` node), truncations (also of a hand-written file that starts with `---` and a comment header and ends in an escaped wildcard: every offset of the header and of the last " +
+		"expression) and bit flips; remote responses: type confusion of every node, truncations, malformed JSON, HTTP-level faults, key confusion, oversized; requests: " +
 		"malformed tokens (1-6 segments, base64/JSON/claim confusion), forwarded headers, raw TCP/TLS/HTTP2 garbage, bad chunking, oversized lines to the HTTP, TLS and gRPC ports. Each file " +
 		"step is one system call = one file event = one exact content, journaled before it is applied. A case is non-trivial if heimdall demonstrably consumed the input (logged reload " +
 		"attempt, processed rule event proven by a later sentinel rule file, remote endpoint asked, request answered).")
@@ -42,6 +44,10 @@ func TestC19(t *testing.T) {
 		"reload attempts are recognised by heimdall's own log statements ('... key store reloaded' / '... reload failed' / 'Failed to apply rule set changes')",
 		"file removal is outside the statement's input domain (contents): a lost inotify watch after remove+recreate is recorded as an observation only",
 		"crashes are classified by the innermost heimdall frame of the dying goroutine and the kind of panic",
+		"a rule file may make the rule set loaded from it disappear without a logged rejection only if it holds no YAML document at all (blanks, comments: the documented 'empty' source) or if its first document "+
+			"is a mapping with a non-empty `rules` list (a rule set, valid or not, that may lack the probed route); a document that defines nothing (`---`, `~`, `null`, `{}`, a scalar, a list) is classified as "+
+			"the unchanged tree's parser does: not a rule set, the previous version stays",
+		"fsnotify errors are injected by a send on the Errors channel of the *fsnotify.Watcher held by heimdall's secrets watcher (reached by reflection), which is what fsnotify itself does on IN_Q_OVERFLOW",
 		"the child lowers the maximum goroutine stack to 128 MB so that unbounded recursion ends the process quickly; the verdict (fatal stack overflow) is the same as with 1 GB")
 
 	g := &gen{corpus: map[string][]byte{}, rng: r.Stream("c19-inputs"), thorough: r.Thorough()}
@@ -150,6 +156,7 @@ func TestC19(t *testing.T) {
 	r.Require("previous_state_confirmed", r.Counter("previous_state_confirmed"), int64(r.Pick(100, 1000)))
 	r.Require("remote_faults_consumed", r.Counter("consumed_remote"), int64(r.Pick(200, 1000)))
 	r.Require("requests_sent", r.Counter("consumed_request"), int64(r.Pick(100, 200)))
+	r.Require("watcher_errors_injected", r.Counter("watcher_errors_injected"), 1)
 	r.Require("children_spawned", int64(mon.spawned), int64(len(lanes)))
 	r.End()
 }
@@ -337,6 +344,8 @@ func (m *monitor) account(res *inResult, inputs []inputSpec) (violated []string)
 	r.Count("previous_state_confirmed_"+res.Kind, res.PrevChecks)
 	r.Count("missed_events_repaired", res.Nudges)
 	r.Count("liveness_probes_answered", res.Alive)
+	r.Count("rule_files_judged_after_silent_unload_or_replacement", res.ShapeChecks)
+	r.Count("watcher_errors_injected", res.WatcherErrors)
 	if res.Observed {
 		r.Count("consumed_"+res.Kind, 1)
 	}
